@@ -142,6 +142,7 @@ Section Calls.
     destruct (is_file_exists (sr_err r)) eqn:Efe; cbn [negb]; [|stay].
     destruct (Nat.eqb_spec p c) as [->|Hpc]; [stay|].
     destruct (negb (perm_on (f_heap s) p OpenWrite (v_user v))); [stay|].
+    destruct (sticky_refuses (f_heap s) p c (v_user v)); [stay|].
     destruct (search_post_child _ _ c HP Ec) as (p' & Hp1 & Hp2 & Hlk).
     assert (p' = p) by congruence. subst p'.
     destruct Hlk as [->|Hlk]; [congruence|].
